@@ -1,0 +1,5 @@
+//go:build !verif
+
+package ocache
+
+func verifOrder(point string, es []*entry) {}
